@@ -2738,7 +2738,7 @@ func (p *Parser) evaluateSliceAssignment(ctx context) (Statement, error) {
 	variableDataType := variableValueType.DataType()
 	assignedDataType := value.ValueType().DataType()
 
-	if variableDataType != assignedDataType {
+	if variableDataType != assignedDataType || value.ValueType().IsSlice() {
 		return nil, p.expectedError(fmt.Sprintf("%s value but got %s", variableDataType, assignedDataType), valueToken)
 	}
 	return SliceAssignment{
